@@ -52,6 +52,13 @@ pub fn enforce_constraints<E: FieldElement>(
     // enforces fmpadd operation constraints.
     index += enforce_fmpadd_constraints(frame, &mut result[index..], op_flag.fmpadd());
 
+    // enforces clk operation constraints. both FMPADD and CLK constrain the first element of the
+    // next frame and their flags are mutually exclusive, so the CLK constraint shares the slot of
+    // the FMPADD constraint (the number of transition constraints stays the same).
+    let mut clk_result = [E::ZERO];
+    enforce_clk_constraints(frame, &mut clk_result, op_flag.clk());
+    result[index - 1] += clk_result[0];
+
     // enforces fmpupdate operation constraints.
     index += enforce_fmpupdate_constraints(frame, &mut result[index..], op_flag.fmpupdate());
 
